@@ -116,5 +116,15 @@ class PyPristine:
 
 def rust_pristine(cases: List[Dict[str, Any]]) -> List[Dict[str, Any]]:
     """Run the given cpu.run requests in a brand-new harness process (fresh sessions, keep=False)."""
-    with rsclient.Rust() as r:
-        return r.cpu_batch([dict(c, sess=f"pr{i}", keep=False, stop_on_halt=False) for i, c in enumerate(cases)])
+    reqs = [dict(c, sess=f"pr{i}", keep=False, stop_on_halt=False) for i, c in enumerate(cases)]
+    last: Optional[HarnessError] = None
+    for _ in range(3):  # the box is shared: a harness killed from outside is re-run (requests are self-contained)
+        try:
+            with rsclient.Rust() as r:
+                return r.cpu_batch(reqs)
+        except HarnessError as exc:
+            last = exc
+            if "died" not in str(exc) and "pipe failed" not in str(exc):
+                raise
+    assert last is not None
+    raise last
